@@ -213,3 +213,81 @@ Print Assumptions C12_client_none.
 Print Assumptions C12_client_total_repaired.
 Print Assumptions C12_client_autoseq.
 Print Assumptions C12_client_panic_refuted_pinned.
+
+
+(* ================= Part 4: the client inside the real traversals =================
+   getput.Get / getput.Put as OWNERS of a traversal (Lookups.v): whatever the schedule of queries, replies
+   (any subset of fields, any order, forged / stale / field-missing), deliveries on vChan, ctx cancellation
+   and stalls, what Get hands to its caller is [client_get] of the replies that reached it (so
+   C12_client / C12_client_max apply), and the seq Put passes to seqToPut is [client_autoseq] of them.
+   Tied to /repo by the `lookups` engine (real getput.Get / getput.Put against simulated nodes with real
+   ed25519 keys). *)
+From Dht Require Lookups LookupsProofs.
+
+Section C12_traversal.
+  Import Lookups LookupsProofs.
+  Variable sha1 : bytes -> bytes.
+  Variable ed_verify : bytes -> bytes -> bytes -> bool.
+  Variable node_ok : addr -> N -> bool.
+  Variable push : list elem -> elem -> list elem.
+  Hypothesis push_incl : forall l e x, In x (push l e) -> x = e \/ In x l.
+  Variable c : lcfg.
+  Notation reachable := (reachable sha1 ed_verify node_ok push c).
+  Notation client_accept := (client_accept sha1 ed_verify (lc_variant c) (lc_tgt c) (lc_salt c)).
+
+  Theorem C12_client_traversal_get s :
+    reachable s -> lc_api c = AGet -> owner_done s = true ->
+    client_get sha1 ed_verify (lc_variant c) (lc_tgt c) (lc_salt c) (l_recv s) None = COResult (l_cur s) /\
+    (l_err s = None -> l_cur s <> None) /\
+    (forall it, In it (l_recv s) -> exists q a r, In (q, a, r) (l_log s) /\ gr_item r = it /\ gr_has_r r = true).
+  Proof. exact (get_result_is_client_get sha1 ed_verify node_ok push c s). Qed.
+
+  (* the value handed to the caller of Get: vouched for by the requested target, taken from a reply of this
+     traversal, and of the highest seq among the accepted mutable values *)
+  Theorem C12_client_traversal_get_sound s g :
+    reachable s -> lc_api c = AGet -> owner_done s = true -> l_cur s = Some g ->
+    ((res_mutable g = false /\ sha1 (res_v g) = lc_tgt c) \/
+     (res_mutable g = true /\
+      exists k, sha1 (k ++ lc_salt c) = lc_tgt c /\
+                ed_verify k (buffer_to_sign (lc_salt c) (res_v g) (res_seq g)) (res_sig g) = true)) /\
+    (exists q a r, In (q, a, r) (l_log s) /\ gr_has_r r = true /\
+                   res_v g = Bep44.r_v (gr_item r) /\ res_sig g = Bep44.r_sig (gr_item r)) /\
+    (res_mutable g = true -> forall it g', In it (l_recv s) -> client_accept it = AccMut g' -> res_seq g' <= res_seq g).
+  Proof. exact (get_result_sound sha1 ed_verify node_ok push c s g). Qed.
+
+  (* the seq Put builds its item from: 0 or the greatest accepted mutable seq; every put carries it *)
+  Theorem C12_client_traversal_put s :
+    reachable s -> lc_api c = APut -> owner_done s = true ->
+    0 <= l_autoseq s /\
+    (forall it g, In it (l_recv s) -> client_accept it = AccMut g -> res_seq g <= l_autoseq s) /\
+    (l_autoseq s = 0 \/ exists it g, In it (l_recv s) /\ client_accept it = AccMut g /\ res_seq g = l_autoseq s) /\
+    (forall r, In r (l_sends s) -> sr_seq r = l_autoseq s).
+  Proof. exact (put_seq_sound sha1 ed_verify node_ok push push_incl c s). Qed.
+
+  (* the repaired client survives every reply *)
+  Theorem C12_client_traversal_total_repaired s : reachable s -> lc_variant c = Repaired -> l_panic s = false.
+  Proof. exact (repaired_no_panic sha1 ed_verify node_ok push c s). Qed.
+End C12_traversal.
+
+(* D2 inside the traversal: on the pinned tree one get reply with the right key and no seq kills the process
+   (l_panic); the repaired client ignores it and Get ends with "value not found" *)
+Theorem C12_client_traversal_panic_refuted_pinned :
+  exists (k salt : bytes) (ls : list Lookups.label),
+    let tgt := k ++ salt in
+    let c v := Lookups.mkLC Lookups.AGet v false Lookups.SNOk 3 7%N None tgt salt in
+    Lookups.l_panic (Lookups.run (fun b => b) (fun _ _ _ => true) (fun _ _ => true) (Lookups.lk_push 7%N 8) (c Pinned) ls) = true /\
+    let s := Lookups.run (fun b => b) (fun _ _ _ => true) (fun _ _ => true) (Lookups.lk_push 7%N 8) (c Repaired)
+               (ls ++ [Lookups.QFinish 0; Lookups.OStalled; Lookups.OStopStep]) in
+    (Lookups.l_panic s, Lookups.owner_done s, Lookups.l_err s, Lookups.l_cur s) = (false, true, Some Lookups.ErrNotFound, None).
+Proof.
+  exists (repeat x11 32), [x73],
+    [Lookups.OStartTrav; Lookups.OGetNodes; Lookups.TIssue 101%N;
+     Lookups.QReturn 0 (Some (Lookups.mkGR true 5%N (Some [x74]) [] (mkReply [x69; x31; x65] (repeat x11 32) (repeat x22 64) None)))].
+  vm_compute. split; reflexivity.
+Qed.
+
+Print Assumptions C12_client_traversal_get.
+Print Assumptions C12_client_traversal_get_sound.
+Print Assumptions C12_client_traversal_put.
+Print Assumptions C12_client_traversal_total_repaired.
+Print Assumptions C12_client_traversal_panic_refuted_pinned.
